@@ -297,8 +297,8 @@ func docTemplateData(seed uint64, dir string) *document.TemplateData {
 		case 3:
 			// with or without a description and a title, with or without a configuration of its own
 			var cfg *document.ImageConfig
-			if r.chance(40) {
-				cfg = &document.ImageConfig{Size: &document.ImageSize{Width: 20, KeepAspectRatio: true}}
+			if r.chance(70) {
+				cfg = oneDimension(r)
 			}
 			alt, title := "", ""
 			if r.chance(50) {
@@ -309,7 +309,11 @@ func docTemplateData(seed uint64, dir string) *document.TemplateData {
 			}
 			td.SetImageWithDetails(name, "", imageBytes("png", 4+i), cfg, alt, title)
 		case 0:
-			td.SetImageFromData(name, imageBytes("png", 4+i), nil)
+			var cfg *document.ImageConfig
+			if r.chance(35) {
+				cfg = oneDimension(r)
+			}
+			td.SetImageFromData(name, imageBytes("png", 4+i), cfg)
 		case 1:
 			fn := filepath.Join(dir, fmt.Sprintf("c17img%d.png", 4+i))
 			os.WriteFile(fn, imageBytes("png", 4+i), 0644)
@@ -649,4 +653,15 @@ func runC17(cfg *runCfg) error {
 	res.Shards = writeShardsPlain(cfg.out, "c17cases", "From Coq Require Import String List Bool.\nFrom WZ Require Import Model.Template Model.Engine Corr.EngineCorr.\nImport ListNotations.\nOpen Scope string_scope.\n", "(list op * list (option string))", "mismatches", cases, 40)
 	res.write(cfg.out)
 	return nil
+}
+
+// oneDimension: a picture configuration that gives the width or the height only, with or without the aspect-ratio flag
+func oneDimension(r *rng) *document.ImageConfig {
+	sz := &document.ImageSize{KeepAspectRatio: r.chance(60)}
+	if r.chance(50) {
+		sz.Width = float64(10 + r.intn(30))
+	} else {
+		sz.Height = float64(10 + r.intn(30))
+	}
+	return &document.ImageConfig{Size: sz}
 }
